@@ -285,3 +285,94 @@ def iso(a, b, _map=None, path="$"):
     except ImportError:
         pass
     return None if a == b else f"{path}: {a!r:.40} != {b!r:.40}"
+
+
+# ---------------------------------------------------------------------------
+# shared references, cycles and big payloads
+
+
+def add_aliases(spec, rng, max_slots=2):
+    """Return a copy of spec in which up to max_slots mutable parts (list,
+    dict, user object) are named ['A', n, part] and ['R', n] references to them
+    are inserted later in build order (shared reference) or inside the part
+    itself (cycle)."""
+    import copy
+    spec = copy.deepcopy(spec)
+    # collect (parent_list, index) positions of value slots in build order
+    positions = []
+
+    def walk(s, parent, idx):
+        positions.append((s, parent, idx))
+        k = s[0]
+        if k in "LT":
+            for i, c in enumerate(s[1]):
+                walk(c, s[1], i)
+        elif k == "D":
+            for pair in s[1]:
+                walk(pair[1], pair, 1)
+        elif k == "O":
+            for a in sorted(s[2]):
+                walk(s[2][a], s[2], a)
+
+    walk(spec, None, None)
+    cands = [(i, p) for i, p in enumerate(positions) if p[0][0] in "LDO" and p[1] is not None]
+    rng.shuffle(cands)
+    slot = 0
+    for i, (s, parent, idx) in cands[:max_slots]:
+        inner = copy.deepcopy(s)
+        mode = rng.choice(["shared", "cycle", "both"])
+        if mode in ("cycle", "both"):
+            if inner[0] == "L":
+                inner[1].insert(rng.randint(0, len(inner[1])), ["R", slot])
+            elif inner[0] == "D":
+                inner[1].append([["s", "self%d" % slot], ["R", slot]])
+            else:
+                a = sorted(inner[2])[-1]
+                inner[2][a] = ["R", slot]
+        parent[idx] = ["A", slot, inner]
+        if mode in ("shared", "both"):
+            # a later sibling position in build order that is a plain leaf
+            later = [(s2, p2, i2) for j, (s2, p2, i2) in enumerate(positions)
+                     if j > i and p2 is not None and s2[0] in "ifbnsyc" and isinstance(p2, (list, dict))]
+            later = [x for x in later if not (isinstance(x[1], list) and len(x[1]) == 2 and x[2] == 0)]
+            if later:
+                s2, p2, i2 = rng.choice(later)
+                try:
+                    if p2[i2] is s2:
+                        p2[i2] = ["R", slot]
+                except (KeyError, IndexError):
+                    pass
+        slot += 1
+    return spec
+
+
+def refs_valid(spec, defined=None):
+    """every ['R', n] must come after (or inside) its ['A', n, ...] in build order"""
+    if defined is None:
+        defined = set()
+    k = spec[0]
+    if k == "R":
+        return spec[1] in defined
+    if k == "A":
+        defined.add(spec[1])
+        return refs_valid(spec[2], defined)
+    if k in "LTSF":
+        return all(refs_valid(c, defined) for c in spec[1])
+    if k == "D":
+        return all(refs_valid(a, defined) and refs_valid(b, defined) for a, b in spec[1])
+    if k == "O":
+        return all(refs_valid(spec[2][a], defined) for a in spec[2])
+    return True
+
+
+BIG_SIZES = [8191, 8192, 8193, 16384, 65535, 65536, 65537, (1 << 20) - 1, 1 << 20, (1 << 20) + 1]
+
+
+def gen_big(rng, max_size=(1 << 20) + 1):
+    size = rng.choice([s for s in BIG_SIZES if s <= max_size])
+    kind = rng.choice(["bytes", "zeros", "str", "bytearray", "list"])
+    if kind == "list":
+        size = min(size, 70000)
+    if kind == "str":
+        size = min(size, 70000)
+    return ["Z", kind, size, rng.randrange(1 << 30)]
